@@ -14,7 +14,7 @@ code -> spec: seeded random expressions (deeper nesting, raw Criterion/ChartGrou
               joins, awkward characters) and long id / package lists with random budgets.
 Every observation is judged by BugQuery_Trace: UniqueSlot, SlotShape, Balanced, Meaning_simple,
 Meaning_charts (normal forms equal), Semantics (truth table over the mentioned <<field, word>> pairs),
-Paging, AnyOf_SimpleDropped / SpuriousRefusal, Batch_Partition / _NonEmpty / _OthersUnchanged / _Budget /
+Paging, AnyOf_SimpleDropped / SpuriousRefusal, Render_Raised / Batch_Raised (any other exception), Batch_Partition / _NonEmpty / _OthersUnchanged / _Budget /
 _NoAxisIdentity.
 
 Carve-outs (not judged, never generated): any_of() without members or with a member that has no chart
@@ -139,18 +139,26 @@ def project(params):
 
 
 def observe_render(real, tid, expr):
-    ev = dict(tid=tid, i=0, ev="render", expr=expr, refused=False, ps=[])
+    ev = dict(tid=tid, i=0, ev="render", expr=expr, refused=False, raised="", ps=[])
     try:
         ev["ps"] = project(real.build(expr).params())
     except real.Refused:
         ev["refused"] = True
+    except Exception as e:  # the code under test failed: an observation (judged by the trace spec), never a driver crash
+        ev["raised"] = type(e).__name__
     return ev
 
 
 def observe_batch(real, tid, expr, base, mx):
-    q = real.build(expr)
-    return dict(tid=tid, i=0, ev="batch", expr=expr, base=base, max=mx, ps=project(q.params()),
-                bs=[project(b.params()) for b in q.batches(base_length=base, max_length=mx)])
+    ev = dict(tid=tid, i=0, ev="batch", expr=expr, base=base, max=mx, raised="", ps=[], bs=[])
+    try:
+        q = real.build(expr)
+        ev["ps"] = project(q.params())
+        for b in q.batches(base_length=base, max_length=mx):  # a generator: keep what came out before a failure
+            ev["bs"].append(project(b.params()))
+    except Exception as e:  # the code under test failed: an observation (judged by the trace spec), never a driver crash
+        ev["raised"] = type(e).__name__
+    return ev
 
 
 # ---------------------------------------------------------------- spec-chosen batching cases
@@ -178,7 +186,10 @@ def batch_case_expr(case):
 def spec_batch_event(real, tid, case):
     expr, hollow = batch_case_expr(case)
     base = 17
-    l0 = len(urllib.parse.urlencode(real.build(hollow).params()))
+    try:
+        l0 = len(urllib.parse.urlencode(real.build(hollow).params()))
+    except Exception:  # judged on the observation below
+        l0 = 0
     slack = case["slack"] * (1 if case["axis"] == "id" else 3)
     return observe_batch(real, tid, expr, base, base + l0 + slack)
 
@@ -307,7 +318,7 @@ def judge(ck, events, label, semmax):
         e = by[v["tid"]]
         if v["clause"] in ("OutsideDomain", "UnknownEvent"):
             raise tlc.MachineryError(f"generator left the property's domain: {show(e['expr'])}")
-        detail = dict(ev=e["ev"], text=show(e["expr"]), case=dict(ev=e["ev"], expr=e["expr"], base=e.get("base", 0), max=e.get("max", 0)))
+        detail = dict(ev=e["ev"], text=show(e["expr"]), raised=e.get("raised", ""), case=dict(ev=e["ev"], expr=e["expr"], base=e.get("base", 0), max=e.get("max", 0)))
         if e["ev"] == "render":
             detail["params"] = [[p["k"], p["n"], p["key"], p["v"] or p["iv"]] for p in e["ps"]][:60]
         else:
